@@ -11,7 +11,7 @@ open Revm.Proofs.Memory (WF)
 def RangeOk (a b L : Nat) : Prop := a = b ∨ (a ≤ b ∧ b ≤ L)
 
 section call
-variable {s0 : IState}
+variable {s0 : IState} {N : IState → Prop} {A : Action → IState → Prop}
 
 theorem resizeMemRange_sat {k : Nat} {ne : Bool} {L : Nat} {s : IState} (h : Rel k true ne L s0 s)
     (offset len : Nat) :
@@ -114,11 +114,12 @@ theorem stipend_adj (value : Nat) (g : Nat) :
   have : ¬ value ≠ 0 := by simpa using e
   rw [if_neg this]
 
-theorem callI_good (hs : Start s0) : Good s0 (callI s0) := by
+theorem callI_good (hb : Base s0) (hA : ∀ a s', ActRel s0 a s' → A a s') :
+    GoodP (Halt s0) N A (callI s0) := by
   unfold callI
-  refine hostCallAction_good hs _ _
+  refine hostCallAction_good hA _ _
     (fun b s' => ∃ L, Rel 0 true false L s0 s' ∧ RangeOk b.2.2.2.2.1 b.2.2.2.2.2 L) ?_ ?_
-  · refine sat_bind (pop1_sat hs.rel) ?_
+  · refine sat_bind (pop1_sat hb.rel) ?_
     intro lgl s1 h1
     refine sat_bind (popAddress_sat h1) ?_
     intro to s2 h2
@@ -141,11 +142,12 @@ theorem callI_good (hs : Start s0) : Good s0 (callI s0) := by
                     scheme := .call, isStatic := s.isStatic, isEof := false })
       (fun _ _ => rfl) rs re (fun _ _ => ⟨rfl, rfl⟩) hr
 
-theorem callcodeI_good (hs : Start s0) : Good s0 (callcodeI s0) := by
+theorem callcodeI_good (hb : Base s0) (hA : ∀ a s', ActRel s0 a s' → A a s') :
+    GoodP (Halt s0) N A (callcodeI s0) := by
   unfold callcodeI
-  refine hostCallAction_good hs _ _
+  refine hostCallAction_good hA _ _
     (fun b s' => ∃ L, Rel 0 true false L s0 s' ∧ RangeOk b.2.2.2.2.1 b.2.2.2.2.2 L) ?_ ?_
-  · refine sat_bind (pop1_sat hs.rel) ?_
+  · refine sat_bind (pop1_sat hb.rel) ?_
     intro lgl s1 h1
     refine sat_bind (popAddress_sat h1) ?_
     intro to s2 h2
@@ -164,13 +166,14 @@ theorem callcodeI_good (hs : Start s0) : Good s0 (callcodeI s0) := by
                     scheme := .callCode, isStatic := s.isStatic, isEof := false })
       (fun _ _ => rfl) rs re (fun _ _ => ⟨rfl, rfl⟩) hr
 
-theorem delegatecallI_good (hs : Start s0) : Good s0 (delegatecallI s0) := by
+theorem delegatecallI_good (hb : Base s0) (hA : ∀ a s', ActRel s0 a s' → A a s') :
+    GoodP (Halt s0) N A (delegatecallI s0) := by
   unfold delegatecallI
-  refine hostCallAction_good hs _ _
+  refine hostCallAction_good hA _ _
     (fun b s' => ∃ L, Rel 0 true false L s0 s' ∧ RangeOk b.2.2.2.1 b.2.2.2.2 L) ?_ ?_
-  · refine sat_bind (check_sat hs.rel _) ?_
+  · refine sat_bind (check_sat hb.rel _) ?_
     rintro _ _ rfl
-    refine sat_bind (pop1_sat hs.rel) ?_
+    refine sat_bind (pop1_sat hb.rel) ?_
     intro lgl s1 h1
     refine sat_bind (popAddress_sat h1) ?_
     intro to s2 h2
@@ -186,13 +189,14 @@ theorem delegatecallI_good (hs : Start s0) : Good s0 (delegatecallI s0) := by
                     scheme := .delegateCall, isStatic := s.isStatic, isEof := false })
       (fun _ _ => rfl) rs re (fun _ _ => ⟨rfl, rfl⟩) hr
 
-theorem staticcallI_good (hs : Start s0) : Good s0 (staticcallI s0) := by
+theorem staticcallI_good (hb : Base s0) (hA : ∀ a s', ActRel s0 a s' → A a s') :
+    GoodP (Halt s0) N A (staticcallI s0) := by
   unfold staticcallI
-  refine hostCallAction_good hs _ _
+  refine hostCallAction_good hA _ _
     (fun b s' => ∃ L, Rel 0 true false L s0 s' ∧ RangeOk b.2.2.2.1 b.2.2.2.2 L) ?_ ?_
-  · refine sat_bind (check_sat hs.rel _) ?_
+  · refine sat_bind (check_sat hb.rel _) ?_
     rintro _ _ rfl
-    refine sat_bind (pop1_sat hs.rel) ?_
+    refine sat_bind (pop1_sat hb.rel) ?_
     intro lgl s1 h1
     refine sat_bind (popAddress_sat h1) ?_
     intro to s2 h2
@@ -269,18 +273,18 @@ theorem createScheme_sat {k : Nat} {ne : Bool} {L : Nat} {s : IState} (h : Rel k
     exact sat_pure ⟨k + GasCalc.CREATE, by unfold GasCalc.CREATE; omega,
       h1.weaken (Nat.le_refl _) (fun _ => by simp) (fun e => by cases e) (Nat.le_refl _)⟩
 
-theorem createI_sat (hs : Start s0) (isCreate2 : Bool) :
+theorem createI_sat (hb : Base s0) (isCreate2 : Bool) :
     Exec.Sat (createI isCreate2 s0) (Halt s0) (fun a s' => ActRel s0 a s') := by
   unfold createI
-  refine sat_bind (requireNonStatic_sat hs.rel) ?_
+  refine sat_bind (requireNonStatic_sat hb.rel) ?_
   rintro _ _ rfl
   refine sat_bind (m := checkWhen isCreate2 _) (Q := fun _ s' => s0 = s') ?_ ?_
   · unfold checkWhen
     split
-    · exact check_sat hs.rel _
+    · exact check_sat hb.rel _
     · exact sat_pure rfl
   · rintro _ _ rfl
-    refine sat_bind (pop3_sat hs.rel) ?_
+    refine sat_bind (pop3_sat hb.rel) ?_
     rintro ⟨value, codeOffset, len⟩ s1 h1
     refine sat_bind (asUsizeOrFail_sat h1 len _) ?_
     rintro len' _ ⟨rfl, hlen⟩
